@@ -13,7 +13,7 @@ import tree_common as T
 import wire
 from wire import enc_str
 from depccg import lang as dlang
-from depccg.utils import denormalize
+from depccg.utils import denormalize, normalize
 
 # characters that end a line for `str.splitlines()` but not for a text file read line by line
 ODD_BREAKS = ['a\x0bb', 'x\x0c', '\x1cq', 'p\x1dq', 'u\x1ev', 'n\x85m', 'l\u2028s', 'p\u2029s']
@@ -112,7 +112,8 @@ def file_suite(ctx, fmt, count, lang_of=lambda i: 'en'):
                 continue
             bad = None
             for k, ((sno, st), r) in enumerate(zip(flat, rs)):
-                want_words = [denormalize(tok['word']) if fmt != 'ja' else tok['word'] for tok in st.tree.tokens]
+                # AUTO / PTB write the escaped spelling of bracket tokens, the Japanese bank format the plain one
+                want_words = [denormalize(tok['word']) if fmt != 'ja' else normalize(tok['word']) for tok in st.tree.tokens]
                 got_words = [tok.get('word', tok.get('surf')) for tok in r.tokens]
                 if got_words != want_words:
                     bad = f'result {k}: words {got_words} for written words {want_words}'
